@@ -104,6 +104,9 @@ struct TickState {
   bool hung = false;
   bool lastResetTickOk = false;
   std::string lastResetWhy = "reset was never seen asserted";
+  uint64_t jumpAfter = 0, jumpTo = 0;    // simulated-time jump: that many ticks after reset was released, time becomes jumpTo
+  uint64_t sinceRelease = 0;
+  bool jumped = false;
 } g_tick;
 
 void tickViolate(const std::string &sig, const std::string &what) {
@@ -115,7 +118,11 @@ bool tickFn(VerilatedContext *ctx, Vhex_pkg *top) {
   if (!s.active) return true;
   s.ticks++;
   if (s.maxTicks && s.ticks > s.maxTicks) { s.hung = true; return false; }
-  if (s.released) return true;
+  if (s.released) {
+    // The testbench's time only feeds the reset window and the trace: it may jump (keeping its parity).
+    if (s.jumpTo && !s.jumped && ++s.sinceRelease >= s.jumpAfter) { s.jumped = true; ctx->time((s.jumpTo & ~1ull) | (ctx->time() & 1)); }
+    return true;
+  }
   auto *proc = top->hex->u_processor;
   uint32_t *mem = top->hex->u_memory->memory_q.data();
   if (s.ticks == 1 && !s.planted && s.ss) s.bannerLen = s.ss->out.data.size();   // load() has printed the banner
@@ -166,6 +173,7 @@ struct PlanView {
   std::string file, image, input, progName;
   uint64_t maxCycles = 50000;
   bool hasPoweron = false; uint64_t poweron = 1;
+  uint64_t jumpAfter = 0, jumpTo = 0;    // hextb's simulation time jumps after reset (C06)
   bool stdinClosed = false;    // the process is started with descriptor 0 closed (sim::fs::setStdinClosed)
   bool hasPlant = false; uint32_t pc = 0, a = 0, b = 0, o = 0;
   std::string memKind = "random"; uint64_t memSeed = 0;
@@ -192,6 +200,7 @@ PlanView view(const Json &plan) {
     else if (k == "simin") { unsigned i = (unsigned)(op.getU64("idx") & 7); v.siminPresent[i] = true; v.simin[i] = sim::fromHex(op.getStr("hex")); }
     else if (k == "options") v.trace = op.getBool("trace");
     else if (k == "stdin_closed") v.stdinClosed = true;
+    else if (k == "time_jump") { v.jumpAfter = 1 + op.getU64("after") % 5000; v.jumpTo = op.getU64("to"); }
   }
   if (v.stdinClosed) v.input.clear();        // nothing can be read from a closed descriptor
   v.image = imageOfFile(v.file);
@@ -289,7 +298,7 @@ public:
     Json plan = Json::object(), cfg = Json::object(), ops = Json::array();
     bool c13 = property == "C13";
     cfg["mode"] = c13 ? "c13" : "c06";
-    cfg["max_cycles"] = (unsigned long long)(tier == "thorough" ? 400000 : 60000);
+    cfg["max_cycles"] = (unsigned long long)(tier == "thorough" ? 400000 : 100000);
     const CorpusEntry *ce = g_corpus.empty() ? nullptr : &g_corpus[r.below(g_corpus.size())];
     // Small programs dominate; the big ones (the X compiler compiling itself) only rarely.
     for (int tries = 0; ce && ce->file.size() > 20000 && tries < 3 && !r.chance(1, 50); tries++) ce = &g_corpus[r.below(g_corpus.size())];
@@ -330,6 +339,12 @@ public:
       // The process may be started with standard input closed: the first file the tool opens and keeps
       // open is then what the program reads as its console.
       if (!c13 && r.chance(1, 10)) { Json sc = Json::object(); sc["op"] = "stdin_closed"; ops.push(sc); }
+      // hextb's simulation time jumps to just below a power of two some ticks after reset.
+      if (!c13 && r.chance(1, 6)) {
+        static const unsigned bits[] = {16, 24, 31, 32, 32, 33, 48, 62};
+        Json tj = Json::object(); tj["op"] = "time_jump"; tj["after"] = (unsigned long long)r.below(r.chance(1, 2) ? 40 : 3000);
+        tj["to"] = (unsigned long long)((1ull << bits[r.below(8)]) - r.below(200)); ops.push(tj);
+      }
     } else {
       // Adversarial power-on state: garbage pc pointing at a byte that decodes to a store or an SVC,
       // operand/base registers aimed at the image, the stack pointer word or the stack.
@@ -399,6 +414,7 @@ public:
     ss.attach(v.input);
     g_tick = TickState();
     g_tick.active = true; g_tick.ss = &ss; g_tick.image = v.image; g_tick.maxTicks = watchdog * 2 + 64;
+    g_tick.jumpAfter = v.jumpAfter; g_tick.jumpTo = v.jumpTo;
     g_tick.bannerLen = std::string::npos;      // learnt below: the banner is printed by load()
     // The banner length is not known before load(); treat everything up to the first newline as banner.
     g_tick.bannerLen = 64;
@@ -580,6 +596,7 @@ public:
     // describe).
     bool closed = v.stdinClosed && !v.hasPlant && !c.usesFileStreams;
     if (closed) { o.count("fault.stdin_closed"); sim::g_log.ev("stdin_closed", 1); }
+    if (v.jumpTo && !v.hasPlant) { o.count("fault.testbench_time_jump"); sim::g_log.ev("time_jump", v.jumpAfter, v.jumpTo); }
     sim::fs::setStdinClosed(closed);
     ToolOutcome tb = v.hasPlant ? runTbPlanted(v, false, watchdog, &inv) : runTbMain(v, v.poweron, watchdog, &inv);
     o.count(v.hasPlant ? "fault.planted_state" : "fault.verilator_seed");
